@@ -580,6 +580,9 @@ func (g *Gen) callWriteSet(cc *ssa.CallCommon, seen map[*ssa.Function]bool) (map
 	case *ssa.MakeClosure:
 		return g.fnWriteSet(v.Fn.(*ssa.Function), seen)
 	}
+	if c := g.funcTypeContract(cc.Value.Type()); c != nil && !c.ModAll && len(c.Modifies) == 0 {
+		return comps, false
+	}
 	return nil, true
 }
 
@@ -661,6 +664,31 @@ func (g *Gen) loopHeader(f *Frame, ci *cfgInfo, b *ssa.BasicBlock, preds []*ssa.
 		}
 		entryVals[phi] = t
 	}
+	// automatic invariant of "for i := range slice" loops (SSA rangeindex pattern): -1 <= idx < n
+	type autoInv struct {
+		phi *ssa.Phi
+		n   string
+	}
+	var autos []autoInv
+	for _, phi := range phis {
+		if phi.Comment != "rangeindex" {
+			continue
+		}
+		for _, ins := range b.Instrs {
+			if bo, ok := ins.(*ssa.BinOp); ok && bo.Op == token.LSS {
+				if inc, ok := bo.X.(*ssa.BinOp); ok && inc.Op == token.ADD && inc.X == phi {
+					if nv, ok := f.vals[bo.Y]; ok {
+						autos = append(autos, autoInv{phi, nv.S})
+					} else if c, ok := bo.Y.(*ssa.Const); ok {
+						autos = append(autos, autoInv{phi, g.constTerm(c).S})
+					}
+				}
+			}
+		}
+	}
+	for _, a := range autos {
+		g.oblige(fmt.Sprintf("inv#%d.auto.init", k), "inv.init", f.en, fmt.Sprintf("(and (<= (- 1) %[1]s) (< %[1]s %[2]s))", entryVals[a.phi], a.n), "range index within bounds", b.Instrs[0].Pos())
+	}
 	// init obligations: invariant with phis := entry values in pre state
 	if spec != nil {
 		for _, phi := range phis {
@@ -708,11 +736,16 @@ func (g *Gen) loopHeader(f *Frame, ci *cfgInfo, b *ssa.BasicBlock, preds []*ssa.
 			g.assume(f.en, g.clause(f, inv, f.st, nil))
 		}
 	}
+	lcAutos := map[*ssa.Phi]string{}
+	for _, a := range autos {
+		g.assume(f.en, fmt.Sprintf("(and (<= (- 1) %[1]s) (< %[1]s %[2]s))", f.vals[a.phi].S, a.n))
+		lcAutos[a.phi] = a.n
+	}
 	// remember for back edges
 	if f.loopHead == nil {
 		f.loopHead = map[int]*loopCtx{}
 	}
-	lc := &loopCtx{phis: phis, spec: spec, k: k}
+	lc := &loopCtx{phis: phis, spec: spec, k: k, autos: lcAutos}
 	if spec != nil && spec.Decreases != nil {
 		v := g.clauseTerm(f, spec.Decreases, f.st, nil)
 		lc.varAtHead = g.defFresh("variant", "Int", v.S)
@@ -721,6 +754,7 @@ func (g *Gen) loopHeader(f *Frame, ci *cfgInfo, b *ssa.BasicBlock, preds []*ssa.
 }
 
 type loopCtx struct {
+	autos     map[*ssa.Phi]string
 	phis      []*ssa.Phi
 	spec      *LoopSpec
 	k         int
@@ -729,7 +763,18 @@ type loopCtx struct {
 
 func (g *Gen) backEdge(f *Frame, from, hdr *ssa.BasicBlock, en string) {
 	lc := f.loopHead[hdr.Index]
-	if lc == nil || lc.spec == nil {
+	if lc == nil {
+		return
+	}
+	for phi, n := range lc.autos {
+		for j, bp := range hdr.Preds {
+			if bp == from {
+				v := g.val(f, phi.Edges[j]).S
+				g.oblige(fmt.Sprintf("inv#%d.auto.keep@b%d", lc.k, from.Index), "inv.keep", en, fmt.Sprintf("(and (<= (- 1) %[1]s) (< %[1]s %[2]s))", v, n), "range index within bounds", token.NoPos)
+			}
+		}
+	}
+	if lc.spec == nil {
 		return
 	}
 	// evaluate invariant with phis := back-edge values in current state
